@@ -342,6 +342,7 @@ X_BitBack(e) ==
 X_Line(e) == Ok(e) /\ LineAccept(e.r, e.a.moves, e.a.end)
 
 X_LineLong(e) == Ok(e) /\ LineLongAccept(e.r, e.a.end, e.a.off)
+X_LineAxisCount(e) == Ok(e) /\ LineAxisCountAccept(e.r, e.a.n)
 X_LineAxis(e) == Ok(e) /\ LineAxisAccept(e.r, e.a.axis, e.a.n)
 
 \* ---- C14 ------------------------------------------------------------------
@@ -495,6 +496,7 @@ Explains(e) ==
       [] e.op \in {"Line", "LineSp"}   -> X_Line(e)
       [] e.op = "Corridor"             -> X_Corridor(e)
       [] e.op = "LineAxis"             -> X_LineAxis(e)
+      [] e.op = "LineAxisCount"        -> X_LineAxisCount(e)
       [] e.op = "LineLong"             -> X_LineLong(e)
       [] e.op = "CorridorAxis"         -> X_CorridorAxis(e)
       [] e.op = "CorridorInvalid"      -> X_CorridorInvalid(e)
@@ -573,6 +575,7 @@ Expected(e) ==
                                          reachable |-> Cardinality(Reachable(Range(e.r), <<0, 0, 0>>))]
     [] e.op = "LineAxis"             -> [n |-> e.a.n, axis |-> e.a.axis, len |-> Len(e.r), missing |-> AxisRun(e.a.axis, e.a.n) \ Range(e.r),
                                          extra |-> Range(e.r) \ AxisRun(e.a.axis, e.a.n)]
+    [] e.op = "LineAxisCount"        -> [entries |-> MaxOf(0, e.a.n) - MinOf(0, e.a.n) + 1, lo |-> MinOf(0, e.a.n), hi |-> MaxOf(0, e.a.n), offaxis |-> 0]
     [] e.op = "LineLong"             -> [len |-> Len(e.r), off |-> Len(e.a.off), hasEnds |-> <<0, 0, 0>> \in Range(e.r) /\ e.a.end \in Range(e.r),
                                          breaks |-> Cardinality({i \in 2..Len(e.r) : ~\E j \in MaxOf(1, i - 3)..(i - 1) : Adj26(e.r[i], e.r[j])})]
     [] e.op = "CorridorAxis"         -> [lineMissing |-> AxisRun(e.a.axis, e.a.n) \ Range(e.r.rm),
